@@ -174,38 +174,7 @@ def make_step(rng, w, kind):
     return step
 
 
-def mutate(config):
-    """Poison every list/dict reachable through getSectionAttributes()."""
-    n = [0]
-    seen = set()
-
-    def rec(v):
-        if id(v) in seen:
-            return
-        seen.add(id(v))
-        if isinstance(v, list):
-            for x in list(v):
-                rec(x)
-            n[0] += 1
-            if n[0] % 3 == 0:
-                del v[:]
-            else:
-                v.append("POISON")
-        elif isinstance(v, dict):
-            for x in list(v.values()):
-                rec(x)
-            n[0] += 1
-            if n[0] % 3 == 0:
-                v.clear()
-            else:
-                v["poison"] = ["POISON"]
-        elif outcome.is_wrapped(v):
-            rec(v.section)
-        elif hasattr(v, "getSectionAttributes"):
-            for a in v.getSectionAttributes():
-                rec(getattr(v, a, None))
-    rec(config)
-    return n[0]
+mutate = outcome.poison
 
 
 _HEX = None
